@@ -469,6 +469,44 @@ def _():
     return G.emit_strings('p_mask', rows, 'masking dataflow (pinned shape)')
 
 
+@item('p_residual')
+def _():
+    """residual loop dataflow (pinned shape) of the four residual classes and the grouped wrappers"""
+    rows = []
+    for fname, cls, tag in ((RVQ, 'ResidualVQ', 'rvq'), (RFSQ, 'ResidualFSQ', 'rfsq'), (RLFQ, 'ResidualLFQ', 'rlfq'), (RSVQ, 'ResidualSimVQ', 'rsvq')):
+        f = find_func(fname, f'{cls}.forward')
+        loops = [n for n in ast.walk(f) if isinstance(n, ast.For)]
+        if len(loops) != 1:
+            raise GenError(f'{cls}.forward: expected exactly one loop')
+        rows.append(f'{tag}.loop:' + ast.unparse(loops[0].target) + ' in ' + ast.unparse(loops[0].iter))
+        for n in ast.walk(loops[0]):
+            if isinstance(n, ast.Assign) and ast.unparse(n.targets[0]) in ('residual', 'quantized_out', 'quantized', '(quantized, indices)', '(quantized, *rest)', '(quantized, indices, loss)', 'maybe_mlp'):
+                rows.append(f'{tag}.body:' + ast.unparse(n).replace('\n', ' '))
+        for n in ast.walk(f):
+            if isinstance(n, ast.Assign) and ast.unparse(n.targets[0]) in ('residual', 'quantized_out', 'x') and n not in list(ast.walk(loops[0])):
+                rows.append(f'{tag}.init:' + ast.unparse(n))
+            if isinstance(n, ast.Assign) and 'torch.stack' in ast.unparse(n.value):
+                rows.append(f'{tag}.stack:' + ast.unparse(n))
+        g = find_func(fname, f'{cls}.get_codes_from_indices')
+        for n in ast.walk(g):
+            if isinstance(n, ast.Assign) and ast.unparse(n.targets[0]) in ('mask', 'indices', 'all_codes', 'scales', 'layer_codes', 'codes', 'quantized_out'):
+                rows.append(f'{tag}.decode:' + ast.unparse(n).replace('\n', ' '))
+            if isinstance(n, ast.AugAssign):
+                rows.append(f'{tag}.decode:' + ast.unparse(n))
+        rows.append(f'{tag}.output:' + ast.unparse(return_expr(fname, f'{cls}.get_output_from_indices')) + ' ; ' +
+                    ' ; '.join(ast.unparse(n) for n in find_func(fname, f'{cls}.get_output_from_indices').body if isinstance(n, ast.Assign)))
+    rows.append('rfsq.scales:' + ' ; '.join(ast.unparse(n) for n in ast.walk(find_func(RFSQ, 'ResidualFSQ.__init__')) if isinstance(n, ast.Call) and G.call_name(n) == 'scales.append'))
+    rows.append('rlfq.scale:' + ast.unparse(assigned_expr(RLFQ, 'ResidualLFQ.__init__', 'codebook_scale')))
+    for fname, cls, tag in ((RVQ, 'GroupedResidualVQ', 'grvq'), (RFSQ, 'GroupedResidualFSQ', 'grfsq'), (RLFQ, 'GroupedResidualLFQ', 'grlfq')):
+        f = find_func(fname, f'{cls}.forward')
+        for n in ast.walk(f):
+            if isinstance(n, ast.Assign) and ast.unparse(n.targets[0]) in ('x', 'out', 'quantized', 'all_indices', 'forward_kwargs'):
+                rows.append(f'{tag}.fwd:' + ast.unparse(n).replace('\n', ' '))
+        rows.append(f'{tag}.split_dim:' + ast.unparse(return_expr(fname, f'{cls}.split_dim')))
+        rows.append(f'{tag}.decode:' + ast.unparse(return_expr(fname, f'{cls}.get_output_from_indices')))
+    return G.emit_strings('p_residual', rows, 'residual loop dataflow (pinned shape)')
+
+
 # =============================================================================== inventories (G4)
 for fname, cls, tag in ((VQ, 'EuclideanCodebook', 'euclid'), (VQ, 'CosineSimCodebook', 'cosine'), (VQ, 'VectorQuantize', 'vq'),
                         (FSQF, 'FSQ', 'fsq'), (LFQF, 'LFQ', 'lfq'), (SIMVQ, 'SimVQ', 'simvq'), (RPQ, 'RandomProjectionQuantizer', 'rpq'),
